@@ -205,7 +205,13 @@ func judgeUnstaking(r *ev.Run, cr *chaosRun) bool {
 						}
 						hist = append(hist, line)
 					}
-					viol("node/unstaking-without-cause", fmt.Sprintf("node %s went Staked->Unstaking without an accepted begin-unstake or a forced-unstake condition (jailed=%v tokens=%s); history: %v", a, p.Jailed, p.Tokens, hist), s.Height)
+					key := "node/unstaking-without-cause"
+					if contains(prev.PosIdx.Waiting, a) {
+						// no request was accepted in this life of the record, yet the address sits in the waiting-to-unstake set:
+						// an entry left behind by an earlier record of the same address
+						key += "/stale-waiting-set-entry-of-an-earlier-record"
+					}
+					viol(key, fmt.Sprintf("node %s went Staked->Unstaking without an accepted begin-unstake or a forced-unstake condition (jailed=%v tokens=%s); history: %v", a, p.Jailed, p.Tokens, hist), s.Height)
 				}
 				if p.Jailed {
 					r.Count("jailed_node_began_unstaking", 1)
